@@ -28,7 +28,7 @@ def gen_valid_consts():
                 missing.append(n)
                 continue
             out.append("def %s : Nat := %d" % (n, v))
-    # code variants (findings F60, F63, F65, F66, F17 of component `valid`): the model follows the tree it is checked against
+    # code variants (findings F175, F178, F180, F188, F17 of component `valid`): the model follows the tree it is checked against
     val = open(os.path.join(ex.SRC, "validation.c")).read()
     new = open(os.path.join(ex.SRC, "tree_data_new.c")).read()
     com = open(os.path.join(ex.SRC, "tree_data_common.c")).read()
@@ -40,13 +40,13 @@ def gen_valid_consts():
             return ""
         return m.group(0)
     uniq = body(val, "lyd_val_uniq_list_equal") + body(val, "lyd_validate_unique")
-    out.append("\n-- validation.c: lyd_validate_unique falls back to a leaf's schema default whatever its ancestors (F60)")
+    out.append("\n-- validation.c: lyd_validate_unique falls back to a leaf's schema default whatever its ancestors (F175)")
     out.append("def uniqueDefaultAlways : Bool := %s" % ("true" if re.search(r"=\s*(slist->)?uniques\[u\]\[v\]->dflt;", uniq) else "false"))
-    out.append("-- tree_data_new.c: lyd_new_implicit completes node->schema->parent, the innermost case of the data node it found (F65)")
+    out.append("-- tree_data_new.c: lyd_new_implicit completes node->schema->parent, the innermost case of the data node it found (F180)")
     out.append("def implicitInnerCase : Bool := %s" % ("true" if re.search(r"first,\s*node->schema->parent,", body(new, "lyd_new_implicit")) else "false"))
-    out.append("-- validation.c: lyd_validate_autodel_case_dflt looks at the innermost case only (F66)")
+    out.append("-- validation.c: lyd_validate_autodel_case_dflt looks at the innermost case only (F188)")
     out.append("def autodelDirectCase : Bool := %s" % ("false" if re.search(r"for\s*\(scase", body(val, "lyd_validate_autodel_case_dflt")) else "true"))
-    out.append("-- validation.c: lyd_val_diff_add gives only a create of a user-ordered node its anchor (F63)")
+    out.append("-- validation.c: lyd_val_diff_add gives only a create of a user-ordered node its anchor (F178)")
     out.append("def valDiffNoDeleteAnchor : Bool := %s" % ("true" if re.search(r"\(op == LYD_DIFF_OP_CREATE\) && lysc_is_userordered", body(val, "lyd_val_diff_add")) else "false"))
     out.append("-- tree_data_common.c: lyd_is_default compares a leaf-list instance with each single default (F17)")
     out.append("def isDefaultAnyOne : Bool := %s" % ("true" if re.search(r"compare with each possible default value", body(com, "lyd_is_default")) else "false"))
